@@ -380,4 +380,84 @@ theorem sibsAtF_trees (nxt : List Nat → Nat → List Nat) : ∀ (k : Nat) (pre
     rw [sibsAt_trees nxt k pre t, sibsAtF_trees nxt k _ ts]
 end
 
+/-! ### identity-constraint tables -/
+
+theorem Ctr.get_add (c : Ctr) (v n w : Nat) :
+    (c.add v n).get w = c.get w + (if v = w then n else 0) := by
+  induction c with
+  | nil => by_cases h : v = w <;> simp [Ctr.add, Ctr.get, h]
+  | cons p c ih =>
+    obtain ⟨k, m⟩ := p
+    by_cases hk : k = v
+    · subst hk
+      by_cases h : k = w <;> simp [Ctr.add, Ctr.get, h]
+    · by_cases h : k = w
+      · subst h
+        have : ¬ (v = k) := fun e => hk e.symm
+        simp [Ctr.add, Ctr.get, hk, this]
+      · simp [Ctr.add, Ctr.get, hk, h, ih]
+
+theorem collectFrom_get (vals : List Nat) : ∀ (s : Ctr × List Nat) (w : Nat),
+    (collectFrom s vals).1.get w = s.1.get w + vals.count w := by
+  induction vals with
+  | nil => intro s w; simp [collectFrom]
+  | cons v vals ih =>
+    intro s w
+    have := ih (s.1.add v 1, if (s.1.add v 1).get v == 2 then s.2 ++ [v] else s.2) w
+    simp only [collectFrom, List.foldl_cons] at this ⊢
+    rw [this, Ctr.get_add, List.count_cons]
+    by_cases h : v = w <;> simp [h] <;> omega
+
+theorem collect_get (vals : List Nat) (w : Nat) : (collect vals).1.get w = vals.count w := by
+  simp [collect, collectFrom_get, Ctr.get]
+
+/-- sum of the counts stored for `w` in a counter given as a list of pairs -/
+def Ctr.total : Ctr → Nat → Nat
+  | [], _ => 0
+  | (k, n) :: c, w => (if k = w then n else 0) + Ctr.total c w
+
+theorem Ctr.update_get (o : Ctr) : ∀ (c : Ctr) (w : Nat), (c.update o).get w = c.get w + o.total w := by
+  induction o with
+  | nil => intro c w; simp [Ctr.update, Ctr.total]
+  | cons p o ih =>
+    intro c w
+    have := ih (c.add p.1 p.2) w
+    simp only [Ctr.update, List.foldl_cons] at this ⊢
+    rw [this, Ctr.get_add]
+    obtain ⟨k, n⟩ := p
+    simp only [Ctr.total]
+    omega
+
+theorem Ctr.total_add (c : Ctr) (v n w : Nat) :
+    (c.add v n).total w = c.total w + (if v = w then n else 0) := by
+  induction c with
+  | nil => simp [Ctr.add, Ctr.total]
+  | cons p c ih =>
+    obtain ⟨k, m⟩ := p
+    by_cases hk : k = v
+    · subst hk
+      by_cases h : k = w <;> simp [Ctr.add, Ctr.total, h] <;> omega
+    · simp only [Ctr.add, beq_iff_eq, hk, if_false, Ctr.total, ih]
+      omega
+
+theorem collectFrom_total (vals : List Nat) : ∀ (s : Ctr × List Nat) (w : Nat),
+    (collectFrom s vals).1.total w = s.1.total w + vals.count w := by
+  induction vals with
+  | nil => intro s w; simp [collectFrom]
+  | cons v vals ih =>
+    intro s w
+    have := ih (s.1.add v 1, if (s.1.add v 1).get v == 2 then s.2 ++ [v] else s.2) w
+    simp only [collectFrom, List.foldl_cons] at this ⊢
+    rw [this, Ctr.total_add, List.count_cons]
+    by_cases h : v = w <;> simp [h] <;> omega
+
+theorem count_phases (sel : List (Bool × Nat)) (w : Nat) :
+    (phaseVals false sel).count w + (phaseVals true sel).count w = (sel.map Prod.snd).count w := by
+  induction sel with
+  | nil => simp [phaseVals]
+  | cons p sel ih =>
+    obtain ⟨b, v⟩ := p
+    simp only [phaseVals] at ih ⊢
+    cases b <;> simp [List.filter_cons, List.count_cons] at ih ⊢ <;> omega
+
 end XsVerif.Lazy
